@@ -124,3 +124,27 @@ extern "C" void h_hfe_adapter(void)
   if (!got && lba < CYL * SPT && HFE_DROP < 4) vf_witness("read of a dropped sector fails");
   if (got && HFE_DROP == 4 && lba == 3) vf_witness("last sector of an intact surface");
 }
+
+// ---------------------------------------------------------------- C18: copy_hfe under --verbose (2-safety)
+extern "C" void h_verbose_copy_hfe(void)
+{
+  byte in[4];
+  for (unsigned i = 0; i < 4; ++i) in[i] = vf_nondet_u8();
+  const unsigned n = vf_nondet_u8(); vf_assume(n <= 4);
+  std::vector<byte> quiet, loud; quiet.reserve(5); loud.reserve(5);
+  bool tq = false, tl = false;
+  DFS::verbose = false;
+  try { copy_hfe(true, in, in + n, std::back_inserter(quiet)); } catch (InvalidHfeFile&) { tq = true; }
+  const unsigned ev_quiet = vfio::nev;
+  for (unsigned i = 0; i < 16; ++i) if (i < ev_quiet) vf_assert(vfio::ev_stream[i] == 2, "warnings go to standard error");
+  DFS::verbose = true;
+  try { copy_hfe(true, in, in + n, std::back_inserter(loud)); } catch (InvalidHfeFile&) { tl = true; }
+  DFS::verbose = false;
+  vf_assert(tq == tl, "--verbose does not change whether the track is accepted");
+  vf_assert(quiet.size() == loud.size(), "--verbose does not change the decoded cells (count)");
+  for (unsigned i = 0; i < 4; ++i) if (i < quiet.size() && i < loud.size()) vf_assert(quiet[i] == loud[i], "--verbose does not change the decoded cells");
+  vf_assert(quiet.capacity() == 5 && loud.capacity() == 5, "harness: output vectors never re-allocated");
+  for (unsigned i = 0; i < vfio::MAXEV; ++i) if (i < vfio::nev) vf_assert(vfio::ev_stream[i] == 2, "everything --verbose adds goes to standard error");
+  vf_observe(quiet.size());
+  if (vfio::nev > ev_quiet + 1) vf_witness("verbose opcode trace printed");
+}
